@@ -110,6 +110,7 @@ def shrink_bucket(col, sub, tier, hseed, n, label, budget=300):
 
     strat = sub.strategy(tier)
     st = {"best": None, "calls": 0, "frozen": None}
+    t_end = time.time() + float(os.environ.get("VF_SHRINK_SECONDS", "45"))  # a less-minimal replay, never a verdict
     known = col.known
     preds = col.predicates
 
@@ -122,7 +123,7 @@ def shrink_bucket(col, sub, tier, hseed, n, label, budget=300):
     def t(case):
         if st["best"] is not None:
             st["calls"] += 1
-            if st["calls"] > budget:
+            if st["calls"] > budget or time.time() > t_end:
                 if st["frozen"] is None:
                     st["frozen"] = core.dumps(st["best"])
                 if core.dumps(case) == st["frozen"]:
